@@ -11,7 +11,7 @@ RULE = ("Hypothesis-generated pairs (a, b) of Time/Interval/Duration with random
         "span-only copy, a single-field edit, an independent draw or of another kind; plus every "
         "gold string of datasets/timeparse_corpus.json. Oracle: a==b <=> same kind and equal field "
         "tuples; equal => equal hash; nb_str equal <=> equal values; parse_nb_string(nb_str(x)) "
-        "has x's field tuple. Non-trivial = distinct pair that is a span-only copy or a "
+        "has x's field tuple; a value that was hashed/printed/parsed and is then edited in place (also through an interval's end object) behaves by its new value, and parsing the same text again is unaffected by edits of an earlier result. Non-trivial = distinct pair that is a span-only copy or a "
         "single-field edit (the cases that separate value semantics from span/identity semantics).")
 
 
@@ -181,6 +181,61 @@ def check_pair(sa, sb):
     return None
 
 
+def apply_edit(obj, sa, sb):
+    """edit obj (built from sa) IN PLACE so that it denotes sb's value (sb = single-field edit of sa)"""
+    t, _ = _types()
+    k = sa[0]
+    if k == "T":
+        names = ["year", "month", "day", "hour", "minute", "DOW", "POD"]
+        for i, nme in enumerate(names):
+            if sa[1 + i] != sb[1 + i]:
+                setattr(obj, nme, sb[1 + i])
+    elif k == "D":
+        if sa[1] != sb[1]:
+            obj.value = sb[1]
+        if sa[2] != sb[2]:
+            obj.unit = t.DurationUnit(sb[2])
+    else:
+        for i, attr in ((1, "t_from"), (2, "t_to")):
+            if sa[i] != sb[i]:
+                if sa[i] is not None and sb[i] is not None and getattr(obj, attr) is not None:
+                    apply_edit(getattr(obj, attr), sa[i], sb[i])     # edit the end object itself
+                else:
+                    setattr(obj, attr, build(sb[i]) if sb[i] is not None else None)
+
+
+def check_mutation(sa, sb):
+    """a value observed (hashed, printed, parsed) before must behave by its NEW value after being edited in place"""
+    _, corpus = _types()
+    if sa[0] != sb[0]:
+        return None
+    a = build(sa)
+    try:
+        hash(a), a.nb_str(), a == build(sa)
+        apply_edit(a, sa, sb)
+        b = build(sb)
+        if value(a) != spec_value(sb):
+            raise core.HarnessError("in-place edit did not produce the intended value: {} vs {}".format(value(a), spec_value(sb)))
+        if not (a == b and b == a):
+            return ("after-in-place-edit:equal-values-unequal:" + sa[0], "{!r} edited to {!r} != fresh {!r}".format(build(sa), a, b))
+        if hash(a) != hash(b):
+            return ("after-in-place-edit:hash-is-stale:" + sa[0], "{!r} edited in place hashes differently from an equal fresh value".format(a))
+        if a.nb_str() != b.nb_str():
+            return ("after-in-place-edit:text-form-is-stale:" + sa[0], "{!r} vs {!r}".format(a.nb_str(), b.nb_str()))
+        # the parser must hand out independent objects: edit a parsed result, parse the same text again
+        s = build(sa).nb_str()
+        x = corpus.parse_nb_string(s)
+        apply_edit(x, sa, sb)
+        y = corpus.parse_nb_string(s)
+        if value(y) != spec_value(sa):
+            return ("parser-hands-out-shared-objects:" + sa[0], "{!r} parsed, result edited, parsed again -> {!r}".format(s, y))
+    except core.HarnessError:
+        raise
+    except Exception as e:
+        return ("after-in-place-edit:raises:" + sa[0], repr(e))
+    return None
+
+
 def _shard(arg):
     pid, seed, n, shard = arg
     acc = core.Acc(pid)
@@ -202,6 +257,11 @@ def _shard(arg):
                  sample={"a": sa, "b": sb, "mode": mode})
         if r:
             acc.fail(r[0], {"a": sa, "b": sb}, r[1])
+        if mode == "edit":
+            r2 = check_mutation(sa, sb)
+            acc.case((sa, sb, "mut"), nontrivial=True, cls=["in-place-edit", "kind:" + sa[0]], sample={"a": sa, "b": sb, "mode": "edit in place"})
+            if r2:
+                acc.fail(r2[0], {"a": sa, "b": sb, "mutate": True}, r2[1])
 
     strat = st.tuples(any_s, st.one_of(st.just("respan"), st.just("edit"), any_s),
                       st.integers(0, 10 ** 6), st.tuples(st.integers(0, 60), st.integers(0, 60)))
@@ -254,7 +314,10 @@ def _fails(case):
     if "gold" in case:
         a = _gold((None, [case["gold"]]))
         return next(iter(a.failures), None)
-    r = check_pair(_tup(case["a"]), _tup(case["b"]))
+    if case.get("mutate"):
+        r = check_mutation(_tup(case["a"]), _tup(case["b"]))
+    else:
+        r = check_pair(_tup(case["a"]), _tup(case["b"]))
     return r[0] if r else None
 
 
@@ -305,6 +368,8 @@ def _cands(case):
                     t[i] = 0
                     yield tuple(t)
 
+    if case.get("mutate"):
+        return
     for x in simpler(a):
         yield {"a": x, "b": b}
     for x in simpler(b):
@@ -323,4 +388,6 @@ def replay(case):
         for b, lst in a.failures.items():
             return (b, lst[0][1])
         return None
+    if case.get("mutate"):
+        return check_mutation(_tup(case["a"]), _tup(case["b"]))
     return check_pair(_tup(case["a"]), _tup(case["b"]))
